@@ -505,7 +505,13 @@ def runN (inp obs : List String) : Verdict :=
         { agree := false, spec := withFeats feats ["n2i-wellformed"], tags := ["les", "malformed"] ++ sizeTags desc0, model := "ok" }
       else match parseTok dumpTok, parseTok treeTok with
         | some dump, some tree =>
-          let fails := checkN2I dump tree
+          -- without layer operations the loaded (and written back) order is: default layer first, the others in the
+          -- order of the source's layercontents.plist
+          let layerOps := opsTok != "-" && (opsTok.splitOn ";").any fun o => o.startsWith "nl." || o.startsWith "ml." || o.startsWith "rl."
+          let nameOf (l : PV) : String := (strOf l "name").getD "?"
+          let orderFail := if !layerOps && (listOf dump "layers").map nameOf != (expectedLayers (listOf desc0 "layers")).map nameOf
+            then ["les-layer-order"] else []
+          let fails := checkN2I dump tree ++ orderFail
           { agree := fails.isEmpty, spec := withFeats feats fails,
             tags := ["les", "les-" ++ src, "ops" ++ toString (min nops 5), if fails.isEmpty then "found" else "not-found"] ++
               sizeTags dump, model := "ok" }
